@@ -264,7 +264,8 @@ def tail_rule(repo, chk, fn, cfg, loop, buf, acc, tail, E, args, after=None):
     ok = (want, True) in tt and len(guards) == 1
     chk.expect(ok, 'C08.5a', 'R14', fn.site(guards[0].ast) if guards else fn.site(tb), ' and '.join(ast.unparse(g.test) for g in guards) or '(unconditional)', 'a final partial batch is used iff it has more than 1024 rows',
                f'the tail rule must be exactly `len(buffer) > 2**10` (strict, 1024); found {[(show(t), p) for t, p in tt]}')
-    a0 = tb.value.args[0] if tb.value.args else None
+    cbr_first = repo.func(CR, 'compute_batch_ranking').params[0]
+    a0 = tb.value.args[0] if tb.value.args else next((k.value for k in tb.value.keywords if k.arg == cbr_first), None)
     a0t = term_of(fn, a0, inline=True) if a0 is not None else None
     ok_arg = a0t in (E(buf), E(f'{buf}[:{args}.minibatch_size]'))
     chk.expect(ok_arg, 'C08.5b', 'R6', fn.site(tb), ast.unparse(a0) if a0 is not None else '', 'the tail batch is the remaining buffer', f'the tail batch must be the remaining rows of the buffer; found {show(a0t)[:100] if a0t else None}')
@@ -303,7 +304,8 @@ def aggregator(repo, chk, fn, acc):
     cs = [c for c in calls(ck) if m.dotted(c.func) == f'{CR}.get_grouped_df']
     ok = len(cs) == 1 and ast.unparse(cs[0].args[0]) == cp and bool(calls(ck, attr='to_csv'))
     tocsv = calls(ck, attr='to_csv')
-    fname_ok = bool(tocsv) and isinstance(tocsv[0].args[0], ast.Constant) and tocsv[0].args[0].value == 'ranking_checkpoint_tmp.tsv' if tocsv and tocsv[0].args else False
+    path_arg = (tocsv[0].args[0] if tocsv[0].args else next((k.value for k in tocsv[0].keywords if k.arg == 'path_or_buf'), None)) if tocsv else None
+    fname_ok = isinstance(path_arg, ast.Constant) and path_arg.value == 'ranking_checkpoint_tmp.tsv'
     par_ck = parents(ck.node)
     guards = []
     cur = par_ck.get(tocsv[0]) if tocsv else None
